@@ -160,6 +160,23 @@ def run(rep, tier):
         rep.extra["cross_examination"] = {"method": "independent replay of literal def_op/rm_op calls (xv/replay.py)", "modules_agreeing": agree,
                                           "modules_not_replayable": skipped, "notes": {k: v for k, v in notes.items() if v != "replayed"}}
         rep.floor("tables confirmed by the independent replay", agree, 35)
+    # ---------------------------------------------------------------- R2 (history): EXTENDED_ARG, its shift and HAVE_ARGUMENT for every version from 2.0 on
+    from ..tables import ref_json as _ref_json
+    hist = _ref_json("extended_arg_history.json")
+    nh = 0
+    for mname, m in sorted(T.reachable.items()):
+        v = tuple(m.ns["version_tuple"][:2])
+        key = "%d.%d" % v
+        if key not in hist["extended_arg"]:
+            continue
+        nh += 1
+        want_e = hist["extended_arg"][key]
+        want_h = hist["have_argument"].get(key, hist["have_argument"]["default"])
+        want_s = hist["shift"]["before_3.6"] if v < (3, 6) else hist["shift"]["from_3.6"]
+        got_ = (m.ns.get("EXTENDED_ARG"), m.ns.get("opmap", {}).get("EXTENDED_ARG"), m.ns.get("EXTENDED_ARG_SHIFT"), m.ns.get("HAVE_ARGUMENT"))
+        rep.ob("R2", short(m), "EXTENDED_ARG-number-shift-HAVE_ARGUMENT", got_ == (want_e, want_e, want_s, want_h), expected=[want_e, want_e, want_s, want_h], derived=list(got_),
+               msg="%s: EXTENDED_ARG constant / opmap entry / shift / HAVE_ARGUMENT are %s; Python %s has %s" % (short(m), list(got_), key, [want_e, want_e, want_s, want_h]))
+    rep.floor("tables compared with the EXTENDED_ARG history", nh, 25)
     # ---------------------------------------------------------------- R5 the table handed out for (version, variant) is that version's table of that flavour, on every call
     from ..fold import FoldError, ModuleNS, PyExc
     f_gom = T.F.modules["xdis.op_imports"].ns.get("get_opcode_module")
